@@ -92,6 +92,11 @@ var catalogue = []catLine{
 	{`{"level":"info","v":6,"msg":"info","n":{"a":"info"}}`, `level=info v=6 msg=info n_a=info`},
 	// JSON escape sequences in string values (the logfmt twin stays plain: its quoting rules are another grammar)
 	{`{"level":"info","v":8,"msg":"say \"hi\"\\ \u00e9\n","n":{"a":"tab\there\/"}}`, `level=info v=8 msg=plain n_a=y`},
+	// lines the json stage cannot parse: not an object, not JSON at all, cut off. Nothing is extracted from them and
+	// they stay in the stream (the ClickHouse-side extraction yields nothing for them either)
+	{`plain text hello, not json`, `level=info v=9 msg=ok`},
+	{`[1,2,3]`, `level=warn v=11 msg=ok2`},
+	{`{"level":"info","v":9`, `level=info v=12 msg=ok3`},
 }
 
 func (s Stage) render() string {
@@ -345,9 +350,12 @@ func (p Prog) evalPipeline(in []refEntry) []refEntry {
 			continue
 		}
 		if p.Unwrap != "" {
+			// (Loki skips an entry whose label is missing or not a number; both qryn engines count it with the value
+			// 0 - toFloat64OrZero on the ClickHouse path, the untouched zero in process - and the reference follows
+			// the engines, see DESIGN.md §12 "observed and not judged")
 			f, err := strconv.ParseFloat(e.labels[p.Unwrap], 64)
 			if err != nil {
-				continue
+				f = 0
 			}
 			e.val = f
 			// (Loki drops the unwrapped label from the series; both qryn engines keep it - the reference
